@@ -33,7 +33,7 @@ def run(prop, tier, seed, ctx):
     if len(sim) < num:
         raise MachineryError("simulation exported only %d behaviours" % len(sim))
     cases += list(enumerate(sim))
-    patterns = ["default"] if tier == "quick" else ["default", "custom"]
+    patterns = ["default", "nogroup"] if tier == "quick" else ["default", "custom", "nogroup"]
     mism = shard_map("bind.sections", "replay_chunk", cases, extra={"patterns": patterns})
     ctx.cov["replayed_cases"] += len(cases) * 4 * len(patterns)
     ctx.cov["traces_validated_against_impl"] += len(cases) * 4 * len(patterns)
